@@ -127,6 +127,48 @@ theorem findLastIdx_some {a : List Nat} {c i : Nat} (e : findLastIdx a c = some 
       rw [e2] at this
       simpa using this
 
+theorem findLastIdx_none {a : List Nat} {c : Nat} (e : findLastIdx a c = none) : c ∉ a := by
+  unfold findLastIdx at e
+  cases hf : a.reverse.findIdx? (· == c) with
+  | some k => simp [hf] at e
+  | none =>
+    intro hc
+    have := List.findIdx?_eq_none_iff.mp hf c (by simpa using hc)
+    simp at this
+
+/-- `substr(start, length)` without reference to the model's arithmetic: a negative `start` counts from the
+    end (clamped to 0), a `start` behind the end is the end; a negative `length` means "to the end", otherwise
+    the end is `start + length` clamped to the length -/
+theorem subList_spec (c : List Byte) (st ln : Int) :
+    subList c st ln =
+      (c.drop (if st < 0 then max 0 ((c.length : Int) + st) else min st c.length).toNat).take
+        ((if ln < 0 then (c.length : Int)
+          else min (c.length : Int) ((if st < 0 then max 0 ((c.length : Int) + st) else min st c.length) + ln)).toNat
+         - (if st < 0 then max 0 ((c.length : Int) + st) else min st c.length).toNat) := by
+  unfold subList substrRange
+  simp only
+  have ea : (if st < 0 then (if (c.length : Int) + st < 0 then 0 else ((c.length : Int) + st).toNat)
+      else if st.toNat > c.length then c.length else st.toNat)
+      = (if st < 0 then max 0 ((c.length : Int) + st) else min st c.length).toNat := by
+    split <;> split <;> omega
+  rw [ea]
+  have hA0 : 0 ≤ (if st < 0 then max 0 ((c.length : Int) + st) else min st (c.length : Int)) := by
+    split <;> omega
+  have hAl : (if st < 0 then max 0 ((c.length : Int) + st) else min st (c.length : Int)) ≤ c.length := by
+    split <;> omega
+  generalize (if st < 0 then max 0 ((c.length : Int) + st) else min st (c.length : Int)) = A at hA0 hAl
+  have eb : (if ln ≥ 0 then (if A.toNat + ln.toNat > c.length then c.length else A.toNat + ln.toNat) else c.length)
+      = (if ln < 0 then (c.length : Int) else min (c.length : Int) (A + ln)).toNat := by
+    by_cases h1 : ln < 0
+    · have h2 : ¬ ln ≥ 0 := by omega
+      simp only [h1, h2, if_true, if_false, Int.toNat_natCast]
+    · have h2 : ln ≥ 0 := by omega
+      simp only [h1, h2, if_true, if_false]
+      by_cases h3 : A.toNat + ln.toNat > c.length
+      · simp only [h3, if_true]; omega
+      · simp only [h3, if_false]; omega
+  rw [eb]
+
 /-! ### findLast(const char*) — the loop repaired by fixes/str/0002 -/
 
 /-- `r` is the last offset `≤ length` at which `n` is a prefix of the rest of `h` (`none`: no such offset) -/
@@ -604,6 +646,59 @@ theorem splitLoop_spec (h seps : List Nat) (skip : Bool) : ∀ (fuel p : Nat) (a
 theorem split_loop_spec (h seps : List Nat) (skip : Bool) :
     splitLoop h (h.map some) seps skip (h.length + 2) 0 [] = splitOut skip (splitRef seps h) := by
   have := splitLoop_spec h seps skip (h.length + 2) 0 [] (Nat.zero_le _) (by omega)
+  simpa using this
+
+/-! ### iterating `token` gives the pieces of `split` -/
+
+/-- the pieces without a final empty one (the loop `while(start < length()) token(seps, start)` does not
+    deliver the empty piece behind a trailing separator, nor the single empty piece of the empty string) -/
+def dropLastEmpty : List (List Nat) → List (List Nat)
+  | [] => []
+  | [t] => if t.isEmpty then [] else [t]
+  | t :: rest => t :: dropLastEmpty rest
+
+theorem dropLastEmpty_cons (t : List Nat) {rest : List (List Nat)} (h : rest ≠ []) :
+    dropLastEmpty (t :: rest) = t :: dropLastEmpty rest := by
+  cases rest with
+  | nil => exact absurd rfl h
+  | cons a r => rfl
+
+theorem tokenIter_spec (seps c : List Nat) : ∀ (fuel start : Nat), start ≤ c.length →
+    c.length + 1 ≤ fuel + start →
+    Spec.tokenIter seps c fuel start = dropLastEmpty (splitRef seps (c.drop start))
+  | 0, start, hs, hf => by omega
+  | fuel + 1, start, hs, hf => by
+    simp only [Spec.tokenIter]
+    by_cases c1 : start ≥ c.length
+    · simp only [c1, if_true]
+      rw [List.drop_of_length_le c1]
+      simp [splitRef, dropLastEmpty]
+    · simp only [c1, if_false]
+      cases hp : strpbrkL (c.drop start) seps with
+      | none =>
+        simp only [Spec.tokenL, Spec.tokenNext]
+        rw [splitRef_none hp]
+        have hne : (c.drop start).isEmpty = false := by
+          cases hd : c.drop start with
+          | nil => have := congrArg List.length hd; simp at this; omega
+          | cons a r => rfl
+        simp only [dropLastEmpty, hne, Bool.false_eq_true, if_false]
+        cases fuel with
+        | zero => rfl
+        | succ f => simp [Spec.tokenIter]
+      | some k =>
+        obtain ⟨hk, _, _⟩ := strpbrk_some hp
+        simp only [List.length_drop] at hk
+        simp only [Spec.tokenL, Spec.tokenNext]
+        rw [splitRef_some hp, dropLastEmpty_cons _ (splitRef_ne_nil _ _), List.drop_drop,
+          tokenIter_spec seps c fuel (start + k + 1) (by omega) (by omega)]
+        congr 3
+
+/-- iterating `token(separators, start)` from 0 while `start < length()` yields the pieces of `split`
+    (all pieces between separators), except a final empty piece -/
+theorem token_iteration (seps c : List Nat) :
+    Spec.tokenIter seps c (c.length + 1) 0 = dropLastEmpty (splitRef seps c) := by
+  have := tokenIter_spec seps c (c.length + 1) 0 (Nat.zero_le _) (by omega)
   simpa using this
 
 end Nstd.Str
